@@ -106,6 +106,44 @@ def _props_for(evname, field, ev):
     return props
 
 
+def _named_in_refused_standard(f):
+    """True if a handle that acquired a value in the rejected event (its
+    probe row was all "F" before and is not any more) was named in a refused
+    AddStd earlier in the episode."""
+    idx = f["index"]
+    if idx < 1 or idx >= len(f["lines"]):
+        return False
+    try:
+        cur = json.loads(f["lines"][idx])
+        prev = json.loads(f["lines"][idx - 1])
+    except ValueError:
+        return False
+
+    def rows(ev):
+        for o in ev.get("obs", []):
+            if o.get("vc") == cur.get("vc"):
+                return o.get("pv", [])
+        return []
+
+    before, after = rows(prev), rows(cur)
+    gained = {h for h, row in enumerate(after)
+              if h < len(before) and all(x == "F" for x in before[h])
+              and any(x != "F" for x in row)}
+    if not gained:
+        return False
+    for ln in f["lines"][:idx]:
+        if not ln.startswith('{"e":"AddStd"'):
+            continue
+        try:
+            e2 = json.loads(ln)
+        except ValueError:
+            continue
+        if e2.get("ok") == 0 and e2.get("vc") == cur.get("vc") and \
+                gained & set(e2.get("hs", [])):
+            return True
+    return False
+
+
 def issues_from_validation(ctx, res, label):
     issues = []
     for f in res["failures"]:
@@ -141,6 +179,11 @@ def issues_from_validation(ctx, res, label):
                     (label, field, case, f["event"].strip()[:400],
                      f.get("expected")))
         props = _props_for(evname, field, ev)
+        if field == "obs.pv" and _named_in_refused_standard(f):
+            # the handle whose value is wrong was named in a standard that
+            # was refused earlier: "a rejected standard adds nothing" (C11)
+            props.add("C11")
+            sig += ":after-refused-AddStd"
         rp = ctx.save_replay("calstore-%s.ndjson" % common.sig_hash(sig),
                              "".join(f["lines"]))
         issues.append(vlib.Issue(props, sig, what, replay=rp,
